@@ -51,6 +51,18 @@ CLAIMED = {
             'Bounded symbolic model checking of crash freedom: every feasible path of parsing a text of 2 (thorough: 3) arbitrary Unicode characters in three contexts, of evaluating 24 malformed/extreme texts, of Integer % for all operand pairs and of 10 expressions whose operands alias the same stored value ends with a value or an error: no panic terminator reachable, no lock on a mutex already held by the thread (holder-tracking model), step budget not exhausted; the store is usable afterwards.',
             'Trusted: mirsym + environment models (parse::<f64>/<i64> of symbolic text over-approximated). Outside: longer arbitrary texts, unbounded nesting depth. Four defects repaired (1f9d77f, 4a14edf, e7620cf, 7367918).',
             'DESIGN.md §4 C11'),
+    'C12': ('model_checking', 'symbolic execution of rustc MIR (mirsym) + z3: panic / wedge reachability on the platform entry points under a symbolic environment',
+            'Bounded symbolic model checking of crash freedom and error routing: real SendParameters::execute, Datamodel::send, ScxmlEventIOProcessor::send/send_to_session and FsmExecutor::send_to_session run with a solver-chosen environment (target form, existence of parent/child/addressed session, processor type, which argument expression fails); no panic outcome is feasible, the sender internal queue holds exactly the error event the Recommendation assigns, nothing is delivered on failure, and a main loop that executes a failing send inside a transition still terminates on cancel.',
+            'Trusted: mirsym + environment models. Outside: invoke start failures, ECMAScript, reader-rejected documents. Two defects repaired (a03f98d, 343de79).',
+            'DESIGN.md §4 C12'),
+    'C15': ('model_checking', 'symbolic execution of rustc MIR (mirsym) + z3: real send path on a 3-session topology, symbolic target form / payload / topology',
+            'Bounded symbolic model checking: for every target form (literal and targetexpr), processor type spelling, payload shape and parent/child topology exactly one queue grows by exactly one event and it is the addressed one; name, sendid, params/namelist/content values (arbitrary i64) arrive unchanged; origintype/origin are set and a reply sent to origin reaches the sender external queue; all other queues stay unchanged.',
+            'Trusted: mirsym + environment models (mpsc FIFO). Outside: id uniqueness under concurrent creation (atomics contract), more than 3 sessions.',
+            'DESIGN.md §4 C15'),
+    'C16': ('model_checking', 'symbolic execution of rustc MIR (mirsym) + z3 with a virtual timer; the delay is a solver variable',
+            'Bounded symbolic model checking with a virtual timer: for every delay >= 400 ms (any u64, incl. negative-as-i64) a delayed send delivers nothing when it executes, is registered under its send id, illegal delays / #_internal raise error.execution; <cancel> removes exactly that id in that session; firing delivers exactly once, with the argument values evaluated at execute time; dropping the session (timer) before the due time discards the event.',
+            'Trusted: mirsym + virtual timer model of crate `timer`; real-time ordering is the timer crate. Outside: delay spellings, thread interleavings.',
+            'DESIGN.md §4 C16'),
 }
 NA_REASON = {}
 
